@@ -183,15 +183,19 @@ def main(argv=None):
         if c is not None:
             try:
                 case = c.cases()[r["case_index"]]
-                inputs = c.realise(case, ob.get("model"))
-                rec["inputs"] = inputs
-                res = c.concrete_run(case, inputs) if inputs is not None else None
+                res = None
+                try:
+                    inputs = c.realise(case, ob.get("model"))
+                    rec["inputs"] = inputs
+                    res = c.concrete_run(case, inputs) if inputs is not None else None
+                except Exception:
+                    rec["model_replay_error"] = traceback.format_exc()[-1500:]
                 rec["native"] = res
                 reproduced = bool(res and res.get("violated"))
                 if not reproduced:
                     res2 = c.search(case, args.tier, seed)
                     if res2 and res2.get("violated"):
-                        rec["model_input_did_not_reproduce"] = dict(inputs=inputs, native=res)
+                        rec["model_input_did_not_reproduce"] = dict(inputs=rec.get("inputs"), native=res)
                         rec["inputs"] = res2.get("inputs")
                         rec["native"] = res2
                         rec["found_by"] = "bounded search over the contract's input generator"
